@@ -1,3 +1,86 @@
-(* C03 -- placeholder while the tie is brought up; theorems follow. *)
-From Y Require Import Prelude Node Loader LoadRun.
-Theorem C03_placeholder : True. Proof. exact I. Qed.
+(* C03 -- polymorphic positions resolve to the unique most-derived match, never a guess.
+   Proofs: Proofs/Polymorph.v, Proofs/WellTagged.v (recognize_sound).
+   Independence of the REGISTRATION order is not proved here (it is checked by the tie on every case under random
+   permutations of the registration order, implementation against itself and against the model); independence of
+   the order of Union members is proved (C03_union_order). *)
+From Coq Require Import NArith ZArith List Bool String Permutation.
+Import ListNotations.
+From Y Require Import Prelude Node Tables NodeOps Types Recognize Loader Hooks Spec WellTagged Polymorph.
+Open Scope N_scope.
+
+(* Exactly one recognised type, or the load fails with RecognitionError: no guessing. *)
+Theorem C03_exactly_one_or_fail : forall o reg f n T,
+  (forall n', process o reg (S f) n T = Ok n' -> exists R e, recognize o reg (S f) n T = Ok ([R], e)) /\
+  (forall tys e, recognize o reg (S f) n T = Ok (tys, e) -> List.length tys <> 1%nat ->
+                 process o reg (S f) n T = Err ERecognition).
+Proof. intros. split; [apply process_singleton | apply process_ambiguous_fails]. Qed.
+Print Assumptions C03_exactly_one_or_fail.
+
+(* Whatever a class position recognises is a registered, concrete (non-abstract) class that is the expected class
+   or one of its registered descendants: abstract classes are never instantiated, unregistered ones never considered. *)
+Theorem C03_candidates_registered_concrete : forall o reg, wf_registry reg ->
+  forall fuel n c top res, registered reg c = true -> rec_classes o reg fuel n c top = Ok res ->
+  Forall (fun R => exists d k, R = TClass d /\ rsub reg d c /\ find_cls reg d = Some k /\ c_abstract k = false) (fst res).
+Proof. intros o reg Hreg fuel n c top res Hc E. exact (proj2 (recognize_sound o reg Hreg fuel) n c top res Hc E). Qed.
+Print Assumptions C03_candidates_registered_concrete.
+
+(* Most-derived: the candidates of a class position are what its registered direct subclasses recognise (recursively);
+   the class itself is tried only when none of them matched and it is concrete; then `decide` is applied. *)
+Theorem C03_most_derived : forall o reg f n c top k, find_cls reg c = Some k ->
+  rec_classes o reg (S f) n c top = (own <- candidates o reg f n c k ;; Ok (decide reg n top own)).
+Proof. exact rec_classes_eq. Qed.
+Theorem C03_subclass_match_wins : forall o reg f n c k own subs, candidates o reg f n c k = Ok own ->
+  rec_subs (fun d => rec_classes o reg f n d false) (direct_subclasses reg c) [] [] = Ok subs -> fst subs <> [] -> own = subs.
+Proof. exact candidates_subclass_wins. Qed.
+Theorem C03_abstract_not_candidate : forall o reg f n c k own, c_abstract k = true -> candidates o reg f n c k = Ok own ->
+  rec_subs (fun d => rec_classes o reg f n d false) (direct_subclasses reg c) [] [] = Ok own.
+Proof. exact candidates_abstract. Qed.
+
+(* Several candidates: only an explicit tag naming one of them decides; otherwise all remain (and the load fails by
+   C03_exactly_one_or_fail).  One candidate: a non-core tag naming anything else (incompatible or unknown) rejects it. *)
+Theorem C03_tag_picks : forall reg n top own kt x y r,
+  fst own = x :: y :: r -> class_of_tag reg (ntag n) = Some kt -> In (TClass (c_name kt)) (fst own) ->
+  decide reg n top own = ([TClass (c_name kt)], rec_ok).
+Proof. exact decide_tag_picks. Qed.
+Theorem C03_ambiguous_stays_ambiguous : forall reg n top own x y r,
+  fst own = x :: y :: r ->
+  (forall kt, class_of_tag reg (ntag n) = Some kt -> ~ In (TClass (c_name kt)) (fst own)) ->
+  fst (decide reg n top own) = fst own.
+Proof. exact decide_ambiguous. Qed.
+Theorem C03_tag_conflict_rejects : forall reg n top own x,
+  fst own = [x] -> uprefix core_prefix (ntag n) = false ->
+  (forall kt, class_of_tag reg (ntag n) = Some kt -> TClass (c_name kt) <> x) ->
+  fst (decide reg n top own) = [].
+Proof. exact decide_tag_conflict. Qed.
+Theorem C03_decision_never_invents : forall reg n top own t, In t (fst (decide reg n top own)) -> In t (fst own).
+Proof. exact decide_subset. Qed.
+Print Assumptions C03_decision_never_invents.
+
+(* The order of Union members is irrelevant: under any permutation the same set of members is recognised, and when
+   exactly one is recognised it is the same one. *)
+Theorem C03_union_order : forall rec ts ts' m tys e, Permutation ts ts' -> rec_union rec ts m = Ok (tys, e) ->
+  exists tys' e', rec_union rec ts' m = Ok (tys', e') /\ (forall t, In t tys <-> In t tys') /\ (forall t, tys = [t] -> tys' = [t]).
+Proof. exact rec_union_perm. Qed.
+Print Assumptions C03_union_order.
+
+(* ---- non-vacuity: Shape <- Circle, Square (both accept any mapping); a Shape position ---- *)
+Local Open Scope string_scope.
+Definition ex_cls (name : string) (bases : list string) (abstract : bool) : cls :=
+  {| c_name := u name; c_bases := map u bases; c_ancestors := u name :: map u bases; c_abstract := abstract;
+     c_shape := ShObj [] false; c_recognize := None; c_savorize := None; c_sweeten := None;
+     c_init_ok := fun _ => true; c_str_ok := fun _ => true |}.
+Definition ex_reg : registry := [ex_cls "Shape" ["object"] true; ex_cls "Circle" ["Shape"] false; ex_cls "Square" ["Shape"] false].
+Definition ex_doc (tag : string) : node := Map (u tag) [] nomark.
+Example C03_ex_ambiguous :
+  option_map fst (match recognize [] ex_reg 10 (ex_doc "tag:yaml.org,2002:map") (TClass (u "Shape")) with Ok r => Some r | _ => None end)
+    = Some [TClass (u "Circle"); TClass (u "Square")] /\
+  process [] ex_reg 10 (ex_doc "tag:yaml.org,2002:map") (TClass (u "Shape")) = Err ERecognition.
+Proof. vm_compute. split; reflexivity. Qed.
+Example C03_ex_tag_decides :
+  option_map fst (match recognize [] ex_reg 10 (ex_doc "!Square") (TClass (u "Shape")) with Ok r => Some r | _ => None end)
+    = Some [TClass (u "Square")] /\
+  option_map fst (match recognize [] ex_reg 10 (ex_doc "!Shape") (TClass (u "Shape")) with Ok r => Some r | _ => None end)
+    = Some [] /\        (* the tag names the abstract base: it conflicts with each concrete candidate *)
+  option_map fst (match recognize [] ex_reg 10 (ex_doc "!Nope") (TClass (u "Circle")) with Ok r => Some r | _ => None end)
+    = Some [].
+Proof. vm_compute. repeat split; reflexivity. Qed.
